@@ -534,6 +534,7 @@ type Contract struct {
 	Lemmas     []string // auto lemmas assumed (as quantified facts) while verifying this function
 	Allocates  []string
 	NilRecv    bool // the method tolerates a nil receiver: not assumed non-nil, not checked at call sites
+	NoMerge    bool // explore the branches of if/switch separately up to the end of the enclosing block
 	StoreLinks bool // also introduce post-store reads from pre-store reads (quantifier instantiation aid)
 	Where      string
 }
@@ -588,7 +589,7 @@ var clauseKW = map[string]bool{
 	"func": true, "ghost": true, "lemma": true, "axiom": true, "requires": true, "ensures": true,
 	"modifies": true, "invariant": true, "decreases": true, "loop": true, "floats": true,
 	"inline": true, "trusted": true, "panics": true, "at": true, "use": true, "obligations": true,
-	"induction": true, "nosafety": true, "withinlen": true, "allocates": true, "trigger": true, "lemmas": true, "unreachable": true, "pure": true, "package": true, "opaque": true, "storelinks": true, "nilrecv": true,
+	"induction": true, "nosafety": true, "withinlen": true, "allocates": true, "trigger": true, "lemmas": true, "unreachable": true, "pure": true, "package": true, "opaque": true, "storelinks": true, "nilrecv": true, "nomerge": true,
 }
 
 // ParseSpecText parses contract text (already stripped of //@ prefixes); pkg is the
@@ -847,6 +848,10 @@ func (ss *SpecSet) ParseSpecText(lines []string, wheres []string, pkg string) er
 			} else if cur != nil {
 				cur.Trusted = true
 			}
+		case "nomerge":
+			if cur != nil {
+				cur.NoMerge = true
+			}
 		case "nosafety":
 			if cur != nil {
 				cur.NoSafety = true
@@ -919,7 +924,7 @@ func (ss *SpecSet) ParseSpecText(lines []string, wheres []string, pkg string) er
 			label := strings.TrimSpace(rc.text[:j])
 			rest := strings.TrimSpace(rc.text[j+1:])
 			kind := "use"
-			for _, k := range []string{"use", "assert", "assume"} {
+			for _, k := range []string{"use", "apply", "assert", "assume"} {
 				if strings.HasPrefix(rest, k+" ") {
 					kind = k
 					rest = strings.TrimSpace(rest[len(k):])
